@@ -3,7 +3,7 @@ from . import robustgen as R
 
 ID = "C03"
 LEVEL = "proof"
-LEAN_MODULES = ["DracoProps.C03", "DracoProps.C03Eb"]
+LEAN_MODULES = ["DracoProps.C03", "DracoProps.C03Kd", "DracoProps.C03Eb"]
 RULE = ("valid streams from the real encoder (random meshes of every topology family of props/geomgen.py, grids with "
         "holes / pinched vertices, grids whose integer attributes have seams along different lines, point clouds; "
         "sequential, kd-tree, Edgebreaker standard / valence; random option sets, metadata) and the small .drc files of "
@@ -21,27 +21,29 @@ RULE = ("valid streams from the real encoder (random meshes of every topology fa
         ' (the encoder re-run with exactly one semantic value replaced; every produced stream is an ordinary '
         'case) and the regression streams of repaired findings (dcc9947, c9df685, 63027a3); the structure-aware '
         'bases include hand-built legacy 2.0-2.2 integer / float kd-tree streams (harness op legacykd; '
-        'implementation only), point clouds spliced into one stream with 2..3 attributes decoders (validity cases '
+        'compared with the Lean model), point clouds spliced into one stream with 2..3 attributes decoders (validity cases '
         'and bases for header / count corruption) and valence-traversal streams with located context counts')
 THEOREM_BACKED = ("DracoProps.C03: decode_ok_valid: decodeGeometrySeq opts s = (some r, s') -> r.geometry.valid = true for "
-                  'every byte string and option set (sequential point cloud + mesh decoders of every bitstream version '
-                  '1.1..2.3; decodeGeometrySeq = the complete decoder with the Edgebreaker / kd-tree bodies rejected); '
-                  'decode_seq_stream_ok_valid; decode_ok_valid_with (the dispatcher with arbitrary body decoders that only '
-                  'return valid geometries); decode_all_ok_valid_partial; valid_accessors_in_bounds; kd-tree body: '
-                  'Kd.decodeKdGeometry_valid (C01Kd.kdtree_decoded_geometry_valid). DracoProps.C03Eb: '
-                  'eb_decode_ok_atts_valid (every attribute of an accepted Edgebreaker stream is valid, every input and '
-                  'version), eb_decode_ok_valid (geometry valid whenever it has an attribute), eb_decode_ok_valid_of_faces '
-                  '(attribute-less mesh: face bound as hypothesis), decode_all_ok_valid / decode_all_ok_accessors (the '
-                  'COMPLETE decoder decodeGeometry, no hypothesis on the stream: every attribute valid; valid and every '
-                  'accessor read in bounds whenever there is an attribute)')
+                  'every byte string and option set (sequential point cloud + mesh decoders of every bitstream version); '
+                  'decode_seq_stream_ok_valid; decode_ok_valid_with; decode_all_ok_valid_partial; '
+                  'valid_accessors_in_bounds; kd-tree body, every version: Kd.decodeKdGeometry_valid '
+                  '(C01Kd.kdtree_decoded_geometry_valid). DracoProps.C03Kd: kdtree_decoded_geometry_valid_legacy (kd-tree '
+                  'streams 1.0 .. 2.2, integer and float method, every byte string; rests on the point-count checks of '
+                  '0596d06 / d17d15d / c9df685 / 63027a3). DracoProps.C03Eb: eb_decode_ok_atts_valid (every attribute of an'
+                  ' accepted Edgebreaker stream is valid, every input and version), eb_decode_ok_valid (geometry valid '
+                  'whenever it has an attribute), eb_decode_ok_valid_of_faces (attribute-less mesh: face bound as '
+                  'hypothesis), decode_all_ok_valid / decode_all_ok_accessors (the COMPLETE decoder decodeGeometry, every '
+                  'method and version, no hypothesis on the stream: every attribute valid; valid and every accessor read in'
+                  ' bounds whenever there is an attribute)')
 CORRESPONDENCE_ONLY = ('face index < num_points for an Edgebreaker mesh with ZERO attribute decoders (never produced by the '
-                       'encoder, accepted by the decoder) is not proved — it is the hypothesis of eb_decode_ok_valid_of_faces; '
-                       "there, and for streams the model reports as unsupported, validity is evaluated on the implementation's "
-                       'returned geometry only (explicit test + sanitized accessor walk)')
-EXPLANATION = ('proof on the decoder model for every body decoder (sequential: full; kd-tree: full; Edgebreaker: every '
-               'attribute, and the faces whenever an attribute decoder ran its point-mapping check); the model is tied '
-               'to the C++ by decoding the same (valid and corrupted) streams; the property itself is tested on every '
-               'geometry the real decoder returns')
+                       'encoder, accepted by the decoder) is not proved — it is the hypothesis of eb_decode_ok_valid_of_faces '
+                       '(evidence: 24.7 M exhaustively enumerated + 24 M random synthesized connectivity streams on the real '
+                       'decoder, none invalid); there, and for streams the model reports as unsupported, validity is evaluated '
+                       "on the implementation's returned geometry only (explicit test + sanitized accessor walk)")
+EXPLANATION = ('proof on the decoder model for every body decoder (sequential: full; kd-tree of every bitstream version:'
+               ' full; Edgebreaker: every attribute, and the faces whenever an attribute decoder ran its point-mapping '
+               'check); the model is tied to the C++ by decoding the same (valid and corrupted) streams; the property '
+               'itself is tested on every geometry the real decoder returns')
 TRUSTED_EXTRA = ["harness/ops_robust.cc validity(): the explicit structural test applied to the returned PointCloud / Mesh"]
 TIMEOUT = 3000
 ORACLES = [R.oracle_valid, R.oracle_status]
